@@ -20,7 +20,7 @@ ASSUMPTIONS = ["model granularity: the receive thread runs between two session l
 def correspondence(ctx):
     """recorded scripts in which the REAL pass is pre-empted (line tracer) before its K-th session lookup"""
     rng = random.Random(ctx.seed * 1000003 + 80000)
-    n = 60 if ctx.quick else 3000
+    n = ctx.n(60, 3000)
     dis, traces, evals, distinct, hist = [], 0, 0, set(), {}
     sample = None
     for _ in range(n):
@@ -119,6 +119,8 @@ def oracle(ctx, full):
     shapes = [(dll, kind, w) for dll in ('j1939-21', 'j1939-22') for kind in ('rts', 'bam') for w in (1, 2, 255)]
     if not exhaustive:
         shapes = [('j1939-21', 'rts', 2), ('j1939-22', 'rts', 2)] + rng.sample(shapes, 3)
+    else:
+        shapes = shapes[ctx.shard::ctx.shards]          # partitioned over the workers (12 shapes x 2 targets)
     findings, evals, distinct, samples = [], 0, set(), []
     stat = dict(shapes=0, points=0, runs=0, double=0, not_fired=0)
     if full:
@@ -128,7 +130,7 @@ def oracle(ctx, full):
     for (dll, kind, w) in shapes:
         size = (rng.choice([23, 50]) if dll == 'j1939-21' else rng.choice([150, 250]))
         for target in (0, 1):
-            seed = rng.getrandbits(24)
+            seed = rng.getrandbits(24) + ctx.shard
             lat = rng.choice([1, 1000, 1000, 2000])
             base, pre = run(dll, kind, w, size, target, seed, record=True, lat=lat)
             desc = dict(dll=dll, kind=kind, window=w, size=size, target=('originator', 'responder')[target], latency=lat)
